@@ -289,6 +289,7 @@ type peerReqOpts struct {
 	method   stun.Method
 	class    stun.MessageClass
 	useClass bool
+	roleLast bool // the role attribute is the last one before MESSAGE-INTEGRITY (after PRIORITY), not in pion's own order
 }
 
 func (sw *soloWorld) nextTx() [stun.TransactionIDSize]byte {
@@ -324,6 +325,7 @@ func (sw *soloWorld) peerRequest(o peerReqOpts) []byte {
 	if o.nom >= 0 {
 		setters = append(setters, NominationSetter{Value: uint32(o.nom), AttrType: a.nominationAttribute}) //nolint:gosec
 	}
+	var roleSetter stun.Setter
 	if !o.noRole {
 		xControlling := a.isControlling.Load()
 		peerControlling := !xControlling
@@ -335,9 +337,12 @@ func (sw *soloWorld) peerRequest(o peerReqOpts) []byte {
 			tie = 0x1111111111111111
 		}
 		if peerControlling {
-			setters = append(setters, AttrControlling(tie))
+			roleSetter = AttrControlling(tie)
 		} else {
-			setters = append(setters, AttrControlled(tie))
+			roleSetter = AttrControlled(tie)
+		}
+		if !o.roleLast {
+			setters = append(setters, roleSetter)
 		}
 	}
 	if o.prio >= 0 {
@@ -346,6 +351,9 @@ func (sw *soloWorld) peerRequest(o peerReqOpts) []byte {
 			p = 1845501695
 		}
 		setters = append(setters, PriorityAttr(p))
+	}
+	if roleSetter != nil && o.roleLast {
+		setters = append(setters, roleSetter)
 	}
 	if !o.noMI {
 		key := o.key
